@@ -91,7 +91,7 @@ PROP = dict(
         dict(name="mimc", pkg="c14", run="^TestC14_MiMC_OneShot$", shards=MIMC, checks=(1500, 20000)),
         dict(name="p2perm", pkg="c14", run="^TestC14_Poseidon2_Perm$", shards=P2, checks=(1500, 20000)),
         dict(name="sis", pkg="c14", run="^TestC14_SIS$", shards=SIS, checks=(600, 8000), seeds=(2, 4)),
-        dict(name="stream", pkg="c14", run="^TestC14_Stream$", shards=MIMC + P2, checks=(2000, 30000)),
+        dict(name="stream", pkg="c14", run="^TestC14_Stream$", shards=MIMC + P2, checks=(1000, 30000)),
         # two to four hashers obtained through the same constructor (registry id or package constructor), interleaved calls with
         # different messages, further instances obtained mid-way: each keeps the digest of its own stream
         dict(name="instances", pkg="c14", run="^TestC14_Instances$", shards=MIMC + P2, checks=(300, 5000)),
